@@ -83,4 +83,39 @@ theorem catalog_grows {n : Nat} {s s' : State} {a : ActorId} {c : Choice} (h : R
   · unfold stepExp at h'; conc_split h'
     all_goals exact ⟨[], by simp [State.put, State.putS, State.finish, State.write]⟩
 
+theorem serialFrom_get {acc : List OpId} {cl : List CRec} (h : SerialFrom acc cl) {i : Nat} {r : CRec}
+    (hi : cl[i]? = some r) : r.base = acc ++ logOf (cl.take i) := by
+  induction cl generalizing acc i with
+  | nil => simp at hi
+  | cons x xs ih =>
+    cases i with
+    | zero =>
+      simp at hi; subst hi
+      simp [h.1]
+    | succ i =>
+      simp at hi
+      have := ih h.2 hi
+      simp [logOf_cons, this, List.append_assoc]
+
+theorem logOf_take_lt {cl : List CRec} {i j : Nat} {r : CRec} (hi : cl[i]? = some r) (hij : i < j) :
+    ∃ rest, logOf (cl.take j) = logOf (cl.take i) ++ r.ops ++ rest := by
+  induction cl generalizing i j with
+  | nil => simp at hi
+  | cons x xs ih =>
+    cases j with
+    | zero => omega
+    | succ j =>
+      cases i with
+      | zero =>
+        simp at hi; subst hi
+        exact ⟨logOf (xs.take j), by simp [logOf_cons]⟩
+      | succ i =>
+        simp at hi
+        obtain ⟨rest, h⟩ := ih (j := j) hi (by omega)
+        exact ⟨rest, by simp [logOf_cons, h, List.append_assoc]⟩
+
+theorem logOf_take_drop (cl : List CRec) (j : Nat) : logOf (cl.take j) ++ logOf (cl.drop j) = logOf cl := by
+  simp only [logOf, ← List.flatten_append, ← List.map_append, List.take_append_drop]
+
+
 end Lungo.Conc
